@@ -2,6 +2,7 @@ package main
 
 import (
 	"fmt"
+	"sort"
 	"go/token"
 	"go/types"
 	"strings"
@@ -69,10 +70,16 @@ func (x *Exec) chanInv(st *State, fr *frame, d *ChanDecl, m Val) (string, bool) 
 	return t, true
 }
 
-func (x *Exec) chanMade(st *State, fr *frame, in *ssa.MakeChan, loc string) {}
+func (x *Exec) chanMade(st *State, fr *frame, in *ssa.MakeChan, loc string) {
+	sz := x.val(st, fr, in.Size)
+	st.ghostWrite(st.ghost("chancap"), loc, sz.T)
+	st.assume(not(st.ghostRead(st.ghost("closedch"), loc)))
+}
 
 func (x *Exec) chanClose(st *State, fr *frame, ch Val, pos token.Pos) {
 	x.obligeAt(st, fr, "close-nil-chan", pos, "", "(not (= "+st.term(ch)+" 0))")
+	x.obligeAt(st, fr, "close-closed-chan", pos, "", not(st.ghostRead(st.ghost("closedch"), st.term(ch))))
+	st.ghostWrite(st.ghost("closedch"), st.term(ch), "true")
 	x.event(st, "close", st.term(ch))
 }
 
@@ -163,6 +170,15 @@ func (x *Exec) doSend(st *State, fr *frame, chv, xv ssa.Value, pos token.Pos, bl
 	}
 	x.event(st, "send:"+name, st.term(v))
 	x.sendHook(st, fr, name, v, pos)
+	// ownership transfer: once a pointer has been sent, the receiving goroutine may change the object-attached ghost
+	// state (zero-initialised ledgers) of the object at any time; the sender knows nothing about it any more
+	if _, isPtr := v.Ty.Underlying().(*types.Pointer); isPtr && x.e.chanDecl(fr.fn, name) != nil {
+		for _, gn := range x.e.zeroGhosts() {
+			g := x.e.ghosts[gn]
+			nv := st.freshSort("xfer", x.e.sortOf(g.Ty))
+			st.ghostWrite(g, st.term(v), nv)
+		}
+	}
 	if blocking {
 		x.blockingOp(st, fr, pos, "send "+name, []string{name})
 	}
@@ -269,6 +285,33 @@ func (x *Exec) doGo(st *State, fr *frame, in *ssa.Go) {
 	}
 	x.event(st, "go:"+name, args...)
 	x.goHook(st, fr, in, name)
+	// the spawned function's precondition is an obligation of the spawner
+	if fn := c.StaticCallee(); fn != nil {
+		if ct := x.e.contracts[x.e.shortName(fn)]; ct != nil && len(ct.Requires) > 0 {
+			ctx := &SpecCtx{s: st, vars: map[string]Val{}, pkg: ct.Pkg}
+			for i, p := range fn.Params {
+				if i < len(c.Args) {
+					ctx.vars[p.Name()] = x.val(st, fr, c.Args[i])
+				}
+			}
+			if mc, ok := c.Value.(*ssa.MakeClosure); ok {
+				for i, fv := range fn.FreeVars {
+					bv := x.val(st, fr, mc.Bindings[i])
+					if bv.Addr != nil {
+						ctx.vars[fv.Name()] = st.load(bv.Addr)
+					}
+				}
+			}
+			for i, r := range ct.Requires {
+				t, err := x.evalClause(st, ctx, r)
+				if err != nil {
+					x.errs = append(x.errs, err.Error())
+					t = "false"
+				}
+				x.obligeAt(st, fr, "pre-go", in.Pos(), shortCallee(x.e.shortName(fn))+"/"+clauseName("requires", i, r), t)
+			}
+		}
+	}
 	// ownership: locals captured by the spawned closure must not be owner-only tables (checked structurally elsewhere)
 }
 
@@ -315,5 +358,64 @@ func (x *Exec) allocHook(st *State, fr *frame, in *ssa.MakeSlice, et types.Type,
 		x.onAlloc(st, fr, in, et, n)
 	}
 }
-func (x *Exec) sendHook(st *State, fr *frame, name string, v Val, pos token.Pos) {}
-func (x *Exec) goHook(st *State, fr *frame, in *ssa.Go, name string)          {}
+// sendHook evaluates the contract's `site <chan>#<k>: expr` obligations at the k-th send site (in source order) on channel <chan>.
+func (x *Exec) sendHook(st *State, fr *frame, name string, v Val, pos token.Pos) {
+	ct := x.e.contracts[x.e.shortName(fr.fn)]
+	if ct == nil || len(ct.Sites) == 0 {
+		return
+	}
+	k := x.e.sendOrdinal(fr.fn, name, pos)
+	want := fmt.Sprintf("%s#%d", name, k)
+	for i, cl := range ct.Sites {
+		if cl.Label != want {
+			continue
+		}
+		x.e.hookHits[ct.Name+"|site "+cl.Label] = true
+		ctx := x.localCtx(st, fr, nil)
+		ctx.vars["m"] = v
+		t, err := x.evalClause(st, ctx, cl)
+		if err != nil {
+			x.errs = append(x.errs, err.Error())
+			t = "false"
+		}
+		x.oblige(st, fr.fn, "site", clauseName("site", i, cl), t)
+	}
+}
+
+// sendOrdinal numbers the send sites on a channel name within a function by source position.
+func (e *Engine) sendOrdinal(fn *ssa.Function, name string, pos token.Pos) int {
+	key := e.shortName(fn) + "|" + name
+	ps, ok := e.sendSites[key]
+	if !ok {
+		for _, b := range fn.Blocks {
+			for _, in := range b.Instrs {
+				switch in := in.(type) {
+				case *ssa.Send:
+					if chanName(in.Chan) == name {
+						ps = append(ps, in.Pos())
+					}
+				case *ssa.Select:
+					for _, s := range in.States {
+						if s.Dir == types.SendOnly && chanName(s.Chan) == name {
+							ps = append(ps, s.Pos)
+						}
+					}
+				}
+			}
+		}
+		sort.Slice(ps, func(i, j int) bool { return ps[i] < ps[j] })
+		e.sendSites[key] = ps
+	}
+	for i, p := range ps {
+		if p == pos {
+			return i + 1
+		}
+	}
+	return 0
+}
+
+// goHook counts goroutine spawns in the ghost counter spawned (key 0), so that invariants can relate it to bookkeeping.
+func (x *Exec) goHook(st *State, fr *frame, in *ssa.Go, name string) {
+	c := st.heapTerm("gh:$spawned", "Int")
+	st.setHeap("gh:$spawned", "Int", "(+ "+c+" 1)")
+}
